@@ -311,7 +311,25 @@ func (s *Slicer) visitBase(v ssa.Value) {
 		case *ssa.Index:
 			v = x.X
 		case *ssa.UnOp:
+			// a load from a local cell (spilled parameter / captured variable):
+			// the object is whatever was stored into the cell
+			if cell := s.cellOf(x.X); cell != nil {
+				s.seen[cell] = true
+				if cell.Parent() != nil {
+					for _, st := range s.index(cell.Parent()).stores {
+						if s.cellOf(st.Addr) == cell && !s.seen[st.Val] {
+							s.visitBase(st.Val)
+						}
+					}
+				}
+				return
+			}
 			v = x.X
+		case *ssa.FreeVar:
+			if b := FreeVarBinding(x); b != nil && !s.seen[b] {
+				s.visitBase(b)
+			}
+			return
 		case *ssa.ChangeType:
 			v = x.X
 		case *ssa.Convert:
@@ -338,6 +356,51 @@ func (s *Slicer) visitBase(v ssa.Value) {
 			return
 		}
 	}
+}
+
+// FreeVarBinding returns the value bound to a closure's free variable at its
+// MakeClosure site (nil if not found).
+func FreeVarBinding(fv *ssa.FreeVar) ssa.Value {
+	fn := fv.Parent()
+	idx := -1
+	for i, x := range fn.FreeVars {
+		if x == fv {
+			idx = i
+		}
+	}
+	if fn.Parent() == nil || idx < 0 {
+		return nil
+	}
+	var out ssa.Value
+	for f := range familyOf(topOf(fn)) {
+		for _, b := range f.Blocks {
+			for _, in := range b.Instrs {
+				if mc, ok := in.(*ssa.MakeClosure); ok && mc.Fn == fn && idx < len(mc.Bindings) {
+					out = mc.Bindings[idx]
+				}
+			}
+		}
+	}
+	return out
+}
+
+// cellOf resolves an address to the local Alloc it denotes directly, looking
+// through closure free variables (nil if it is not a plain local cell).
+func (s *Slicer) cellOf(addr ssa.Value) *ssa.Alloc {
+	for depth := 0; depth < 8; depth++ {
+		switch x := addr.(type) {
+		case *ssa.Alloc:
+			return x
+		case *ssa.FreeVar:
+			addr = FreeVarBinding(x)
+			if addr == nil {
+				return nil
+			}
+		default:
+			return nil
+		}
+	}
+	return nil
 }
 
 func topOf(fn *ssa.Function) *ssa.Function {
@@ -386,8 +449,8 @@ func (s *Slicer) memory(addr ssa.Value, depth int) {
 // objectCall: value obj (a pointer / mutable object) is an argument of c; the
 // call may write into obj from its other arguments.
 func (s *Slicer) objectCall(c ssa.CallInstruction, obj ssa.Value, depth int) {
-	if cv, ok := c.(ssa.Value); ok && s.seen[cv] {
-		// already expanded
+	if cv, ok := c.(ssa.Value); ok {
+		s.seen[cv] = true // the call that filled the object is part of its provenance
 	}
 	callee := Callee(c)
 	if callee != nil && callee.Blocks != nil && s.InRepo != nil && s.InRepo(callee) && depth < s.MaxDepth {
